@@ -62,10 +62,12 @@ def p1(R):
     rd = ReachingDefs(g)
     f = R.func(PF)
     data = f.params[1]
-    heads = [h for h in g.live_nodes() if h.kind == 'loophead']
-    outer = [h for h in heads if isinstance(h.ast.test, ast.Compare) and 'len(%s)' % data in U(h.ast.test)]
-    need(len(outer) == 1, 'Parser.feed: main loop `while pos < len(data)` not found')
-    head = outer[0]
+    # the main loop is the loop whose body dispatches on the kind of awaitable (whatever the form of its test)
+    disp = [t for t in g.live_nodes() if t.kind == 'test' and U(t.ast).startswith('isinstance(self._awaiting, _ReadBytes')]
+    need(len(disp) == 1, 'Parser.feed: awaitable dispatch tests not found')
+    lfs = [fr for fr in disp[0].frames if fr.kind == 'loop']
+    need(lfs, 'Parser.feed: main loop (the loop around the awaitable dispatch) not found')
+    head = lfs[-1].head
     sends = [(n, c) for n in g.live_nodes() for c in n.calls if isinstance(c.func, ast.Attribute) and c.func.attr == 'send'
              and U(c.func.value) == 'self._gen']
     need(len(sends) >= 2, 'Parser.feed: expected a send in each arm')
